@@ -206,7 +206,7 @@ impl Driver {
                 self.stop = true;
             }
         }
-        if self.execs_before + self.dfs.executions >= self.max_execs {
+        if self.execs_before + self.dfs.executions >= self.max_execs || ((self.dfs.executions & 1023) == 0 && past_deadline()) {
             self.capped = true;
             self.stop = true;
         }
@@ -232,6 +232,24 @@ impl Driver {
 
 thread_local! {
     static DRIVER: RefCell<Option<Driver>> = const { RefCell::new(None) };
+}
+
+/// Wall-clock deadline of the whole check (milliseconds since UNIX epoch, 0 = none): programs still
+/// running then are reported as capped (never as exhaustive).
+pub static DEADLINE_MS: AtomicU64 = AtomicU64::new(0);
+
+fn past_deadline() -> bool {
+    let d = DEADLINE_MS.load(Ordering::Relaxed);
+    if d == 0 {
+        return false;
+    }
+    let now = std::time::SystemTime::now().duration_since(std::time::UNIX_EPOCH).map(|x| x.as_millis() as u64).unwrap_or(0);
+    now > d
+}
+
+pub fn set_deadline_in(secs: u64) {
+    let now = std::time::SystemTime::now().duration_since(std::time::UNIX_EPOCH).map(|x| x.as_millis() as u64).unwrap_or(0);
+    DEADLINE_MS.store(now + secs * 1000, Ordering::Relaxed);
 }
 
 impl Scheduler for DfsSched {
@@ -667,6 +685,10 @@ pub fn explore_program(prog: &Program, opts: SchedOpts) -> ProgResult {
     let mut outcomes: HashSet<u64> = HashSet::new();
     sut::SCHED_POINTS.with(|c| c.set(0));
     for bound in 0..=opts.max_bound {
+        if past_deadline() {
+            out.capped = true;
+            break;
+        }
         DRIVER.with(|d| {
             *d.borrow_mut() = Some(Driver {
                 dfs: explore::Dfs::new(bound),
